@@ -11,10 +11,11 @@
    The matrix.  The compressed matrix handed to the kernel is seen per vector of its major axis:
    the positions stored for vector i ([lay], an input: it is decided by the table's history), and the
    values stored there.  The dense length of each vector comes from the table. *)
-From Coq Require Import List Arith ZArith Bool.
+From Coq Require Import List Arith ZArith QArith Bool.
 From BiomV Require Import Base.Tree Base.ListUtil Base.Matrix.
 From BiomV Require Export Model.Table Model.Stored Model.Reorder.
 Import ListNotations.
+Close Scope Q_scope.
 
 Definition E_UNMODELLED : Z := 99%Z.
 
@@ -84,3 +85,15 @@ Definition tb_set_data (h : heap) (r : ref) (arr : sparr) : heap :=
 Definition np_ne (l : list Z) (k : Z) : list bool := map (fun x => negb (Z.eqb x k)) l.      (* l != k *)
 Definition np_eq (l : list Z) (k : Z) : list bool := map (fun x => Z.eqb x k) l.             (* l == k *)
 Definition np_where (m : list bool) (a b : Z) : list Z := map (fun c : bool => if c then a else b) m.
+
+(* ---- norm: its values are exact rationals, the tables of the model hold (scaled) integers.  The function
+   norm hands over is generated; its call of transform goes to this rational-valued counterpart of the
+   generated transform_gen (same calls, results scattered to the stored positions; no object is updated):
+   the dense vectors of the normalised table along the axis *)
+Definition userfnq := list Z -> Z -> option Tree -> list Q.
+Definition np_sum (l : list Z) : Z := zsum l.                                  (* .sum() *)
+Definition py_float (z : Z) : Z := z.                                          (* float(): exact on the domain *)
+Definition np_div_q (l : list Z) (d : Z) : list Q := map (fun x => Qmake x (Z.to_pos d)) l.   (* l / d, d > 0 *)
+Definition tb_transform_q (lay : list (list nat)) (t : table) (f : userfnq) (a : axis) (inplace : bool) : list (list Q) :=
+  scatter_all 0%Q (axis_vecs a t) lay
+    (map (fun i => f (gather 0%Z (nth i lay []) (vec a t i)) (nth i (ids a t) 0%Z) (md_at a t i)) (seq 0 (length (ids a t)))).
